@@ -47,8 +47,12 @@ def check_drv(case):
     return want, got
 
 
+_SPACE = {}       # enumerated spaces, filled by plan() before the worker pool is forked; tasks carry index ranges only
+
+
 def w_drv(task):
-    widths, combos, styles_upto = task
+    widths, (key, lo, hi), styles_upto = task
+    combos = _SPACE[key][lo:hi]
     out = {"cov": {"evaluations": 0, "distinct_nontrivial": 0, "drv_designs": 0, "drv_accept_expected": 0,
                    "drv_conflict_expected": 0, "drv_dsl_syntaxerror_expected": 0},
            "samples": [], "violations": [], "kinds": {}, "by_style": {}}
@@ -95,7 +99,8 @@ def _shared_reentry(groups, graph, cyc):
 
 
 def w_dep(task):
-    layout, gs, style_list = task
+    layout, (key, lo, hi), style_list = task
+    gs = _SPACE[key][lo:hi]
     out = {"cov": {"evaluations": 0, "distinct_nontrivial": 0, "dep_designs": 0, "dep_accept_expected": 0,
                    "dep_cycle_expected": 0, "dep_same_signal_feedforward_accepted": 0, "dep_cycle_via_other_output_bit": 0,
                    "dep_register_breaks_cycle": 0},
@@ -146,16 +151,20 @@ def plan(rep):
         dep = [(3, 9, [(3,), (1, 2), (1, 1, 1)]), (4, 3, [(4,), (2, 2)])]
     else:
         drv = [((2,), 2, 3, 3), ((3,), 2, 3, 2), ((1, 2), 2, 3, 2), ((2, 2), 2, 3, 1)]
-        dep = [(3, 9, [(3,), (1, 2), (2, 1), (1, 1, 1)]), (4, 5, [(4,), (2, 2), (1, 3), (2, 1, 1)]), (5, 4, [(5,), (2, 3)]),
+        dep = [(3, 9, [(3,), (1, 2), (2, 1), (1, 1, 1)]), (4, 5, [(4,), (2, 2), (1, 3), (2, 1, 1)]), (5, 3, [(5,)]), (5, 4, [(2, 3)]),
                (6, 2, [(3, 3), (2, 2, 2)])]
     for widths, max_ord, max_multi, styles_upto in drv:
-        for ch in chunks(G.driver_cases(widths, max_ord, max_multi), 400):
-            tasks.append(("drv", (widths, ch, styles_upto)))
+        key = ("drv", widths, max_ord, max_multi)
+        _SPACE[key] = list(G.driver_cases(widths, max_ord, max_multi))
+        for lo in range(0, len(_SPACE[key]), 400):
+            tasks.append(("drv", (widths, (key, lo, lo + 400), styles_upto)))
     for n, max_edges, layouts in dep:
         st = G.styles(n)
+        key = ("dep", n, max_edges)
+        _SPACE[key] = list(G.graphs(n, max_edges))
         for layout in layouts:
-            for ch in chunks(G.graphs(n, max_edges), 6):
-                tasks.append(("dep", (layout, ch, st)))
+            for lo in range(0, len(_SPACE[key]), 6):
+                tasks.append(("dep", (layout, (key, lo, lo + 6), st)))
     bounds = {"drv": [{"widths": list(w), "ordered_tuples_up_to": a, "multisets_up_to": b, "if_switch_cat_styles_for_tuples_up_to": s}
                       for w, a, b, s in drv],
               "dep": [{"bits": n, "max_edges": e, "layouts": [list(l) for l in ls], "styles": len(G.styles(n))} for n, e, ls in dep]}
